@@ -3,6 +3,15 @@
 import json, sys
 
 CHECKS = {
+ "C09": dict(cat="exploration", tech="bounded-exhaustive string enumeration + proptest sampling; differential of three acceptance paths (FromStr/TryFrom, TOML+JSON deserialisation, literal macros via one generated cargo check) against hand-written grammar recognisers; display/parse round trips",
+   text="All strings up to a length bound over class-representative alphabets (exhaustive for that bound), all reserved-word neighbours, random long strings and version-like strings are decided by hand-written recognisers and compared with every acceptance path incl. the compile-time macros; accepted values must render identically. Exploration beyond the enumerated bound.",
+   note="Recognisers are the harness's transcription of the CNB spec grammars; LayerName strings with newline, '/' or NUL are treated as undecided (paths must agree); macro verdicts are read from rustc JSON diagnostics of a generated crate."),
+ "C18": dict(cat="exploration", tech="bounded-exhaustive enumeration of small inventories x queries against a validity predicate (member, matches, maximal); proptest sampling of semver inventories with TOML round trip; exhaustive checksum strings for a 1-byte digest + structured sha256/sha512 variants",
+   text="Every inventory multiset up to 4/5 artifacts over 4 versions x os x arch x metadata is resolved for every query (all version/metadata predicates) under a total order, a product partial order and f32-with-NaN, and the result is checked with a validity predicate; sampled semver inventories round-trip through TOML; checksum acceptance is compared with a hand-written grammar.",
+   note="Validity predicate and checksum grammar are the harness's own; requirements are pure predicates; partial orders are transitive."),
+ "C19": dict(cat="exploration", tech="bounded-exhaustive enumeration of inputs x all chunkings (MappedWrite/TeeWrite) against a reference segmenter; proptest-generated child write scripts run through both streaming APIs with bytewise comparison and a /proc-based deadlock watchdog",
+   text="MappedWrite and TeeWrite are checked on every byte string up to length 8/10 over {marker,a,b} under every way of chunking it into write calls, with both finalisers and short-writing targets; child processes execute generated write scripts (0 to 4 pipe buffers, either stream first, threads per stream, early close) and every byte and the exit status must arrive; a watchdog that finds the child blocked in write(2) reports a deadlock.",
+   note="The kernel scheduler is not controlled (only the child's write pattern is); watchdog expiry in any state other than child-blocked-in-write is reported as inconclusive (exit 2)."),
  "C04": dict(cat="exploration", tech="bounded-exhaustive enumeration + proptest sampling against a reference model of the CNB env rules; permutation metamorphic relation",
    text="Every LayerEnv with <=2 entries over a class-representative alphabet is applied for all query scopes and all 16 starting envs and compared with an independent reference apply (exhaustive for that sub-space); 20k/1M sampled larger envs with byte-string names/values. Exploration: no absence claim beyond the enumerated sub-space.",
    note="Trusts the harness's reference transcription of the spec's modification rules (envmodel.rs)."),
